@@ -116,6 +116,7 @@ impl RunCtx {
 
     /// Runs `f` (a call into hashbrown) with the operation's faults armed, catching unwinds.
     pub fn call<R>(&mut self, op: &Op, f: impl FnOnce() -> R) -> Out<R> {
+        crate::state::HEARTBEAT.fetch_add(1, std::sync::atomic::Ordering::Relaxed);
         {
             let mut s = sim();
             s.begin_op();
